@@ -246,7 +246,7 @@ func (o *c01Obs) After(w *wWorld, st *wStep) *kit.Viol {
 			o.pubSess[s.Sess] = true
 		default:
 			t.failed[s.Token] = fmt.Sprint(c.Code)
-			if o.afterCrash[s.Route] && c.Code >= 500 {
+			if o.afterCrash[s.Route] && c.Code >= 500 && !st.Fired {
 				return kit.V("wedged-after-crash", "after a crash inside a publish, topic %s answers a valid publish with %d %s (store writes in the wrong order leave a stored number the topic re-issues)", s.Route, c.Code, c.Text)
 			}
 		}
